@@ -384,7 +384,9 @@ theorem facts_wrap :
   decide +kernel
 
 /-- **The helpers' statement structure is the transcribed one**: the skeletons of `ShowCursor`, `Fill`,
-`Origin`, `Clear`, `Print`, `PrintTruncate`, `Println` and `Wrap` regenerated from window.go on this
+`Origin`, `Clear`, `Print`, `PrintTruncate`, `Println`, `Wrap` and Wrap's helper `splitsCluster` (the F111c repair: a line
+segment is extended while it ends inside a grapheme cluster — in the model the line segments are a parameter,
+computed by the harness with the same loop) regenerated from window.go on this
 run equal the pinned transcription (`Lemmas/WindowSkelPinned.lean`) that `cursorPos`, `fillOps`,
 `origin`, `clear`, `printGo`, `truncGo`, `lnGo`, `wrapSegs`/`wrapChars` follow statement by statement. -/
 theorem facts_helper_skeletons :
@@ -395,14 +397,15 @@ theorem facts_helper_skeletons :
     VaxisModel.Gen.WindowFacts.skPrint = VaxisModel.Lemmas.WindowSkelPinned.skPrint ∧
     VaxisModel.Gen.WindowFacts.skPrintTruncate = VaxisModel.Lemmas.WindowSkelPinned.skPrintTruncate ∧
     VaxisModel.Gen.WindowFacts.skPrintln = VaxisModel.Lemmas.WindowSkelPinned.skPrintln ∧
-    VaxisModel.Gen.WindowFacts.skWrap = VaxisModel.Lemmas.WindowSkelPinned.skWrap := by
+    VaxisModel.Gen.WindowFacts.skWrap = VaxisModel.Lemmas.WindowSkelPinned.skWrap ∧
+    VaxisModel.Gen.WindowFacts.sksplitsCluster = VaxisModel.Lemmas.WindowSkelPinned.sksplitsCluster := by
   decide +kernel
 
 /-- No statement of the helpers has a form the extractor does not know. -/
 theorem helpers_fully_recognised :
     (VaxisModel.Gen.WindowFacts.skShowCursor ++ VaxisModel.Gen.WindowFacts.skFill ++ VaxisModel.Gen.WindowFacts.skOrigin ++
      VaxisModel.Gen.WindowFacts.skClear ++ VaxisModel.Gen.WindowFacts.skPrint ++ VaxisModel.Gen.WindowFacts.skPrintTruncate ++
-     VaxisModel.Gen.WindowFacts.skPrintln ++ VaxisModel.Gen.WindowFacts.skWrap).all (fun l => l.2.1 != "unknown") = true := by
+     VaxisModel.Gen.WindowFacts.skPrintln ++ VaxisModel.Gen.WindowFacts.skWrap ++ VaxisModel.Gen.WindowFacts.sksplitsCluster).all (fun l => l.2.1 != "unknown") = true := by
   decide +kernel
 
 /-- The extractor recognised every shape it looks for in window.go / screen.go / character.go. -/
